@@ -586,6 +586,7 @@ func sequenceClients(quick bool) []client {
 func run(c *vh.Ctx) {
 	p := hs.SharedPKI()
 	quick := c.Tier == "quick"
+	c.Extra["tree_has_ExtraEcdhe"] = hs.TreeFixed()
 	var clients []client
 	for _, pr := range hs.Parrots() {
 		clients = append(clients, client{name: pr.Name, id: pr.ID})
